@@ -536,6 +536,12 @@ func (v *Validator) typeOfComparison(env *requestEnv, left, right ast.IsNode, ca
 		errs = append(errs, rightExpectErr)
 	}
 
+	// Both operands are individually comparable, but `<` and friends are only defined between
+	// two values of the same type (Long with Long, datetime with datetime, duration with duration).
+	if len(errs) == 0 && lt != nil && rt != nil && lt != rt {
+		errs = append(errs, typeIncompatErr(lt, rt))
+	}
+
 	if len(errs) > 0 {
 		return typeBool{}, caps, errors.Join(errs...)
 	}
